@@ -786,6 +786,11 @@ func c18ShowTrans(c *Ctx, r *Report, f *FuncRef) {
 	var buf types.Object
 	if rt, ok := f.Decl.Body.List[len(f.Decl.Body.List)-1].(*ast.ReturnStmt); ok && len(rt.Results) == 1 {
 		buf = identObj(info, rt.Results[0])
+		if call, ok := unparen(rt.Results[0]).(*ast.CallExpr); ok && len(call.Args) == 0 && buf == nil {
+			if se, ok := unparen(call.Fun).(*ast.SelectorExpr); ok && se.Sel.Name == "String" {
+				buf = builderObj(info, se.X) // a strings.Builder buffer is returned as buf.String()
+			}
+		}
 	}
 	why := ""
 	if buf == nil {
@@ -794,6 +799,20 @@ func c18ShowTrans(c *Ctx, r *Report, f *FuncRef) {
 	adds := func(n ast.Node, pred func(e ast.Expr) bool) bool {
 		hit := false
 		ast.Inspect(n, func(m ast.Node) bool {
+			// writes to a strings.Builder buffer: buf.WriteString(v), fmt.Fprintf(&buf, f, v…)
+			if es, ok := m.(*ast.ExprStmt); ok {
+				if b, vals, ok := builderAppends(info, es); ok && b == buf {
+					for _, v := range vals {
+						ast.Inspect(v, func(k ast.Node) bool {
+							if e, ok := k.(ast.Expr); ok && pred(e) {
+								hit = true
+							}
+							return !hit
+						})
+					}
+				}
+				return true
+			}
 			as, ok := m.(*ast.AssignStmt)
 			if !ok || len(as.Lhs) != 1 || identObj(info, as.Lhs[0]) != buf {
 				return true
@@ -922,6 +941,34 @@ func textAppend(info *types.Info, st ast.Stmt) (types.Object, ast.Expr, bool) {
 						return o, call.Args[0], true
 					}
 				}
+			}
+		}
+	}
+	return nil, nil, false
+}
+
+// builderAppends: the statement writes to a local strings.Builder — buf.WriteString(v) or fmt.Fprintf/Fprint/Fprintln(&buf, …);
+// returns the buffer and the written operands.
+func builderAppends(info *types.Info, es *ast.ExprStmt) (types.Object, []ast.Expr, bool) {
+	call, ok := unparen(es.X).(*ast.CallExpr)
+	if !ok {
+		return nil, nil, false
+	}
+	fn := callee(info, call)
+	if fn == nil {
+		return nil, nil, false
+	}
+	switch fn.FullName() {
+	case "(*strings.Builder).WriteString":
+		if se, ok := unparen(call.Fun).(*ast.SelectorExpr); ok && len(call.Args) == 1 {
+			if o := builderObj(info, se.X); o != nil {
+				return o, call.Args, true
+			}
+		}
+	case "fmt.Fprintf", "fmt.Fprint", "fmt.Fprintln":
+		if len(call.Args) >= 1 {
+			if o := builderObj(info, call.Args[0]); o != nil {
+				return o, call.Args[1:], true
 			}
 		}
 	}
